@@ -294,7 +294,7 @@ func checkC13(c *Ctx) {
 	// a definition is marked as referenced (hence skipped by the definitions pass) only by a
 	// comparison that really runs: the visited test precedes the $ref resolution
 	checkRecursionGuard(c, "C13.R8.visited-order", pk)
-	checkLoopTotality(c, "C13.R10.loop-totality", pk, "diff", 30, map[string]string{})
+	checkLoopTotality(c, "C13.R10.loop-totality", pk, "diff", 30, diffLoopExits)
 	checkAccumulation(c, pk)
 	checkTwinShortcuts(c, "C13.R4.twin-shortcuts", r)
 	checkComparedAsDeclared(c, pk)
@@ -863,4 +863,10 @@ func checkComparedAsDeclared(c *Ctx, pk *packages.Package) {
 			return true
 		})
 	}
+}
+
+// diffLoopExits: the reviewed early exits and conditional collections of the diff package's loops over spec collections.
+var diffLoopExits = map[string]string{
+	"diff.getParams › loop over spec.Parameter #1 › conditional store #1": "‹spec.Parameter›.In == ‹string› ⇒ parameters of the location being compared (the caller loops over the five locations)",
+	"diff.getParams › loop over spec.Parameter #2 › conditional store #1": "‹spec.Parameter›.In == ‹string› ⇒ same, operation-level parameters",
 }
